@@ -797,9 +797,15 @@ func c01r7(p *Program, r *Report) {
 func c01r8(p *Program, r *Report) {
 	wh := r.NeedFunc("(*framer).writeHeader")
 	rh := r.NeedFunc("readHeader")
-	sl := r.NeedFunc("(*framer).setLength")
 	nf := r.NeedFunc("newFramer")
-	if wh == nil || rh == nil || sl == nil || nf == nil {
+	// the function that stores the length into the header (setLength, or finish when the stores are written there)
+	lp := p.lengthPatch()
+	if lp == nil {
+		r.Unresolved("no function stores the four bytes of a length into framer.buf")
+		return
+	}
+	sl := lp.Fn
+	if wh == nil || rh == nil || nf == nil {
 		return
 	}
 	winfo := wh.Pkg.TypesInfo
@@ -813,10 +819,7 @@ func c01r8(p *Program, r *Report) {
 	if po := paramObj(winfo, wh.Decl.Type, 2); po != nil {
 		streamName = po.Name()
 	}
-	lenName := "length"
-	if po := paramObj(sl.Pkg.TypesInfo, sl.Decl.Type, 0); po != nil {
-		lenName = po.Name()
-	}
+	lenName := lp.V.Name()
 	// The writer is interpreted for a concrete protocol version (helpers followed): the bytes appended to f.buf
 	// after the last reset are the header layout of that version.
 	writerLayout := func(v int) ([]ByteItem, bool) {
@@ -840,18 +843,32 @@ func c01r8(p *Program, r *Report) {
 	setLengthStores := func(v int) (map[int]ByteItem, bool) {
 		tr := &tracer{p: p, prims: map[string]string{}, maxPaths: 64, inline: map[string]bool{}, trackBuf: "f.buf"}
 		paths := tr.run(sl, v)
-		if len(paths) != 1 || len(tr.unsup) > 0 {
-			r.Unresolved("setLength v%d: %d paths, %v", v, len(paths), tr.unsup)
+		if len(paths) == 0 || len(tr.unsup) > 0 {
+			r.Unresolved("%s v%d: %d paths, %v", sl.Name, v, len(paths), tr.unsup)
 			return nil, false
 		}
-		out := map[int]ByteItem{}
-		for _, it := range flat(paths[0].trace) {
-			if it.Prim == "store" && len(it.Bytes) == 1 {
-				out[it.Off] = it.Bytes[0]
+		// every path that stores anything stores the same bytes (paths that leave early with an error store none)
+		var out map[int]ByteItem
+		for _, ps := range paths {
+			cur := map[int]ByteItem{}
+			for _, it := range flat(ps.trace) {
+				if it.Prim == "store" && len(it.Bytes) == 1 {
+					cur[it.Off] = it.Bytes[0]
+				}
+				if it.Prim == "store-le" {
+					cur[-1] = ByteItem{}
+				}
 			}
-			if it.Prim == "store-le" {
-				out[-1] = ByteItem{}
+			if len(cur) == 0 {
+				continue
 			}
+			if out != nil && fmt.Sprint(out) != fmt.Sprint(cur) {
+				cur[-2] = ByteItem{}
+			}
+			out = cur
+		}
+		if out == nil {
+			out = map[int]ByteItem{}
 		}
 		return out, true
 	}
